@@ -753,7 +753,9 @@ theorem recvGotMessage_msg (C : Crypto) (r : RecvD) (s p : String) (body : Bytes
       injection this with e1 e2
       subst e1 e2
       exact ⟨rfl, rfl⟩
-  · simp [hk] at h
+  · simp only [hk] at h
+    have := recvStep_msg _ _ _ _ _ h
+    cases this
 
 theorem rEff_inv (C : Crypto) (me ps : String) (peer mine : List Bytes) (c : Client) (e : REff)
     (h : Inv C me ps peer mine c)
